@@ -90,7 +90,7 @@ async fn watchdog(sh: Rc<Shared>, fx: Rc<Fx>, sc: Scenario, mode: Mode, ips: Vec
         let t = fx.tick.get() + 1;
         fx.tick.set(t);
         sh.round.set(t as u32);
-        if t <= sc.sides[0].read_delay.max(sc.sides[1].read_delay) as u64 + 2 {
+        if sh.sleepers.get() > 0 {
             last_active = t;
         }
         let mut o = sh.obs.borrow_mut();
@@ -198,6 +198,7 @@ pub fn run_fixture(sc: &Scenario, keep: bool) -> Outcome {
         writer_done: [Gate::default(), Gate::default()],
         fin_delivered: Default::default(),
         round: Default::default(),
+        sleepers: Default::default(),
         hole_round: Default::default(),
         spawner: Spawner::default(),
         hosts: None,
